@@ -3,6 +3,7 @@ import PermutaModel.Lemmas.C18Bridge
 import PermutaModel.Lemmas.C18Plot
 import PermutaModel.Lemmas.C18PlotK
 import PermutaModel.Lemmas.C18Adj
+import PermutaModel.Lemmas.C18Int
 
 /-!
 # C18 — shading-lemma verdicts and point insertion preserve the meaning of mesh patterns
@@ -435,5 +436,92 @@ example : shadableBoxes ⟨[0], []⟩ =
 example : MeshContains [0] ⟨[0], []⟩ :=
   ⟨[0], ⟨rfl, by simp [StrictInc], by simp, by intro a b ha hb; simp at ha hb; subst ha; subst hb; simp⟩,
     by intro i hi hic; simp at hi; subst hi; simp at hic⟩
+
+/-! ## `can_simul_shade` on ARBITRARY integer positions (no argument is outside the model)
+
+`Model.C18.canSimulShadeI` (`Model/C18Int.lean`, what the driver executes for `cansimul` / `css` / `cssz`)
+mirrors the code for any two pairs of integers: rotation into negative coordinates, Python's negative
+subscripts in `self.pattern[pos1[0] - 1]`, `IndexError` beyond. -/
+
+/-- on two cells of the grid the integer model is the model `canSimulShade` of the theorems above -/
+theorem can_simul_shade_int_agrees (μ : Mesh) (q1 q2 : Cell)
+    (hq1 : q1.1 ≤ μ.pattern.length ∧ q1.2 ≤ μ.pattern.length)
+    (hq2 : q2.1 ≤ μ.pattern.length ∧ q2.2 ≤ μ.pattern.length) :
+    canSimulShadeI μ (castC q1) (castC q2) = (canSimulShade μ q1 q2).map (List.map Int.ofNat) :=
+  canSimulShadeI_cast μ q1 q2 hq1 hq2
+
+/-- … and so is `north_east_simul_shading_lemma_conditions`, for all natural coordinates -/
+theorem ne_simul_int_agrees (μ : Mesh) (p1 p2 : Cell) : neSimulI μ (castC p1) (castC p2) = neSimul μ p1 p2 :=
+  neSimulI_cast μ p1 p2
+
+/-- **no licence outside the grid**: if `can_simul_shade(pos1, pos2)` returns a non-empty list for a valid mesh
+    pattern and ANY two integer positions, both positions are cells of the grid `[0, n]²`.  (The inner test
+    `north_east_simul_shading_lemma_conditions` alone can answer `True` left of the grid, through a negative
+    subscript — see the example below —, but then the loop raises `IndexError` two rounds earlier or later.) -/
+theorem can_simul_shade_licence_in_grid (μ : Mesh) (hμ : ValidMesh μ) (p1 p2 : ICell) (l : List Int)
+    (h : canSimulShadeI μ p1 p2 = .ok l) (hl : l ≠ []) :
+    inGridI μ.pattern.length p1 = true ∧ inGridI μ.pattern.length p2 = true := by
+  obtain ⟨h1, h2⟩ := canSimulShadeI_licence_grid hμ h hl
+  exact ⟨(inGridI_iff _ _).mpr h1, (inGridI_iff _ _).mpr h2⟩
+
+/-- consequently: when one of the positions is not a cell of the grid the call returns `[]` or raises, and the
+    only exception it can raise (for any arguments) is `IndexError` -/
+theorem can_simul_shade_outside (μ : Mesh) (hμ : ValidMesh μ) (p1 p2 : ICell)
+    (hout : ¬ (inGridI μ.pattern.length p1 = true ∧ inGridI μ.pattern.length p2 = true)) :
+    canSimulShadeI μ p1 p2 = .ok [] ∨ canSimulShadeI μ p1 p2 = .error .indexError := by
+  cases h : canSimulShadeI μ p1 p2 with
+  | error e => right; rw [canSimulFromI_error _ _ _ _ _ e h]
+  | ok l =>
+    left
+    cases l with
+    | nil => rfl
+    | cons a t => exact absurd (can_simul_shade_licence_in_grid μ hμ p1 p2 _ h (by simp)) hout
+
+theorem can_simul_shade_only_indexError (μ : Mesh) (p1 p2 : ICell) (e : Err)
+    (h : canSimulShadeI μ p1 p2 = .error e) : e = .indexError :=
+  canSimulFromI_error _ _ _ _ _ e h
+
+/-- **`can_simul_shade` is sound for every argument on which it answers**: for a valid mesh pattern and ANY two
+    integer positions, a non-empty answer means that for ALL permutations `σ`: `σ` contains `μ` iff `σ` contains
+    `μ` with the positions shaded — `gridPart` keeps those that are cells of the grid (the only ones `shade`
+    accepts); by `can_simul_shade_licence_in_grid` these are both. -/
+theorem can_simul_shade_sound_all (μ : Mesh) (hμ : ValidMesh μ) (p1 p2 : ICell) (l : List Int)
+    (h : canSimulShadeI μ p1 p2 = .ok l) (hl : l ≠ []) (σ : NSeq) (hσ : IsPerm σ) :
+    MeshContains σ μ ↔ MeshContains σ (shade μ (gridPart μ.pattern.length [p1, p2])) := by
+  obtain ⟨g1, g2⟩ := canSimulShadeI_licence_grid hμ h hl
+  have i1 := (inGridI_iff _ _).mpr g1
+  have i2 := (inGridI_iff _ _).mpr g2
+  have hgp : gridPart μ.pattern.length [p1, p2] = [(p1.1.toNat, p1.2.toNat), (p2.1.toNat, p2.2.toNat)] := by
+    simp only [mlen] at i1 i2
+    simp [gridPart, i1, i2]
+  rw [hgp]
+  have c1 := castC_toNat _ _ g1
+  have c2 := castC_toNat _ _ g2
+  have n1 : (p1.1.toNat, p1.2.toNat).1 ≤ μ.pattern.length ∧ (p1.1.toNat, p1.2.toNat).2 ≤ μ.pattern.length := by
+    obtain ⟨a, b, c, d⟩ := g1; simp only [mlen] at b d; simp only; omega
+  have n2 : (p2.1.toNat, p2.2.toNat).1 ≤ μ.pattern.length ∧ (p2.1.toNat, p2.2.toNat).2 ≤ μ.pattern.length := by
+    obtain ⟨a, b, c, d⟩ := g2; simp only [mlen] at b d; simp only; omega
+  have hc := canSimulShadeI_cast μ _ _ n1 n2
+  rw [c1, c2, h] at hc
+  cases hN : canSimulShade μ (p1.1.toNat, p1.2.toNat) (p2.1.toNat, p2.2.toNat) with
+  | error e => rw [hN] at hc; cases hc
+  | ok l' =>
+    rw [hN] at hc
+    have hl' : l' ≠ [] := by
+      rintro rfl
+      simp only [Except.map, List.map_nil, Except.ok.injEq] at hc
+      exact hl hc
+    exact can_simul_shade_sound μ hμ _ _ n1 n2 l' hN hl' σ hσ
+
+/-- the quirk behind these theorems: left of the grid the inner test reads `self.pattern[-2]` and says `True` for
+    two positions that are no cells at all; the public `can_simul_shade` raises on the same arguments -/
+example : neSimulI ⟨[0, 1], []⟩ (-1, 1) (-1, 0) = .ok true ∧
+    canSimulShadeI ⟨[0, 1], []⟩ (-1, 1) (-1, 0) = .error .indexError := by decide
+/-- outside the grid without an exception: the empty answer -/
+example : canSimulShadeI ⟨[0], []⟩ (0, 0) (6, 0) = .ok [] ∧ canSimulShadeI ⟨[0, 1, 2], []⟩ (3, 5) (1, 3) = .ok [] := by
+  decide
+/-- inside the grid: the docstring examples, now through the integer model -/
+example : canSimulShadeI ⟨[0, 2, 1], []⟩ (3, 2) (3, 1) = .ok [1] ∧ canSimulShadeI ⟨[0, 2, 1], []⟩ (1, 0) (1, 1) = .ok [0] ∧
+    gridPart 3 [(3, 2), (3, 1)] = [(3, 2), (3, 1)] ∧ gridPart 2 [(-1, 1), (2, 0)] = [(2, 0)] := by decide
 
 end C18
